@@ -677,7 +677,9 @@ MANIFEST = dict(
     technique="symbolic enumeration of literal emission streams per "
               "structured path (balance automaton for XML / LaTeX / "
               "parentheses) + taint rule for names + table agreement with "
-              "the SBML parser + definite assignment",
+              "the SBML parser + definite assignment + typestate of "
+              "StringBox locals (may-have-no-lines) against the bracket "
+              "adders that index a fixed line",
     text="Decides for every expression, by induction over the printer's "
          "functions: on every structured path of every MathMLPrinter "
          "function the literal skeleton written is well-nested XML, of "
@@ -686,7 +688,10 @@ MANIFEST = dict(
          "names reach the MathML stream only XML-escaped; no printer emits "
          "in unordered-container order; every printed SBML function name "
          "is an SBML parser key constructing the same class; every handler "
-         "assigns its result. Does not decide that the output means the "
+         "assigns its result; no MathML handler resets the document stream; "
+         "the SBML parser builds names from the text as written; a unicode "
+         "StringBox that may have no lines never reaches a bracket adder "
+         "that indexes its first/last line unguarded. Does not decide that the output means the "
          "expression; totality is reported, not judged.",
     note="Symbol names are assumed not to be unbalanced LaTeX markup "
          "themselves; dynamic numbers carry no markup.",
